@@ -584,9 +584,12 @@ def judge(s, ev, base):
                      (tag, [(h["done"], h["size"], h["err"]) for h in hs], len(ns)))
         if final["err"] == ECANCELED and close_seq > final["seq"]:
             fail("canceled_after_close", "%s reports ECANCELED although the channel was not closed" % tag)
-        # operations that never reach the stream's list are not ordered with it: zero length (io.c:1063), rejected at
-        # creation/enqueue because of close/stop (ECANCELED) or of a descriptor error recorded earlier (no system call)
-        if final["err"] != ECANCELED and o["length"] > 0 and (ns or final["err"] == 0):
+        # what the code guarantees (C14_stream_order): operations that were put on the stream's list complete in list
+        # order, cancelled ones included (cleanup completes them in list order).  An operation is known to have been
+        # listed when it performed a system call or completed without error; one that ends with an error and never
+        # performed I/O may have been rejected at creation / enqueue (zero length io.c:1063, closed or stopped channel
+        # :1157/:1201, descriptor error recorded earlier) -- such an operation completes at once and is not ordered
+        if o["length"] > 0 and (ns or final["err"] == 0):
             done_order.append((o["write"], i, final["seq"]))
         if not o["write"]:
             if moved > o["length"]:
